@@ -28,14 +28,23 @@ NAMES    = ('frames_total', 'secret_metric', 'lat_ms')
 PATTERNS = ('frames_*', '*_ms', '*')
 ENTRIES  = NAMES + PATTERNS
 
-KINDS = {'quick': ('none', 'counter', 'histc', 'hista', 'gauge'),
-         'thorough': ('none', 'counter', 'histc', 'hista', 'hista10', 'gauge', 'gauge_nocb')}
+# OpenTelemetry style dotted names, wildcard entries with regex metacharacters ('.', '-', '?', '[') and names that differ from
+# the intended ones exactly at the metacharacter: the reference is fnmatch, 'yolo.*' must not let 'yolo_count' through
+DOT_NAMES   = ('yolo.count', 'yolo_count', 'yolox.count', 'cam-1.people', 'cam-12.people', 'cam-1_people')
+DOT_ENTRIES = ('yolo.*', 'cam-1.*', 'yolo.count', 'cam-?.people', 'yolo?count', '[cy]*.people', 'yolo.c*t', '*.count',
+               'cam-1.people_histogram', 'yolo.*_histogram')
+DOT_KINDS   = ('counter', 'histc', 'histinf', 'gauge')
+
+KINDS = {'quick': ('none', 'counter', 'histc', 'histinf', 'hista', 'gauge'),
+         'thorough': ('none', 'counter', 'histc', 'histinf', 'histinf0', 'hista', 'hista10', 'gauge', 'gauge_nocb')}
 
 SEQS = {'none': (), 'one': (3,), 'edges': (0, 1, 1.0000001, 5, 10, 10.5, 1000), 'same': (5, 5, 5),
         'floats': (0.25, 99.75, 1e6, 1e-9)}
 SEQ_NAMES = {'quick': ('none', 'one', 'edges', 'same'), 'thorough': ('none', 'one', 'edges', 'same', 'floats')}
 
 CUSTOM_BOUNDS = [1, 5, 10]
+INF_BOUNDS    = [1, 5, 10, float('inf')]   # Prometheus style '+Inf' bucket: MetricSpec and the OTel SDK accept it
+INF0_BOUNDS   = [0, float('inf')]
 
 SIG_EMPTY   = 'C16/empty-allowlist-exports-everything'
 SIG_NOTLIST = 'C16/metric-not-on-allowlist-exported'
@@ -79,6 +88,13 @@ def allowlist_configs(tier):
         out.append(dict(source='env-histogram-entries', env=','.join(s), yaml=None, ref=list(s)))
         out.append(dict(source='yaml-histogram-entries', env=None, ref=list(s),
                         yaml='safe_metrics:\n' + ''.join(f'  - "{e}"\n' for e in s)))
+
+    # dotted names / entries with regex metacharacters: every single entry and every pair, through env and yaml
+    for s in [c for n in (1, 2) for c in itertools.combinations(DOT_ENTRIES, n)]:
+        out.append(dict(source='env-dotted', env=','.join(s), yaml=None, ref=list(s)))
+
+        if tier == 'thorough' or len(s) == 1:
+            out.append(dict(source='yaml-dotted', env=None, ref=list(s), yaml='safe_metrics:\n' + ''.join(f'  - "{e}"\n' for e in s)))
 
     # a file that configures no list at all, nothing in the environment: nothing is configured -> lock-down
     out.append(dict(source='yaml-no-key', env=None, yaml='openlineage:\n  heartbeat_interval: 10\n', ref=[]))
@@ -198,6 +214,10 @@ def _declare(meter, assign, seq, gauges):
             specs.append(MetricSpec(name, 'counter', lambda d: d['c']))
         elif kind == 'histc':
             specs.append(MetricSpec(name, 'histogram', lambda d: d['v'], boundaries=list(CUSTOM_BOUNDS)))
+        elif kind == 'histinf':
+            specs.append(MetricSpec(name, 'histogram', lambda d: d['v'], boundaries=list(INF_BOUNDS)))
+        elif kind == 'histinf0':
+            specs.append(MetricSpec(name, 'histogram', lambda d: d['v'], boundaries=list(INF0_BOUNDS)))
         elif kind == 'hista':
             specs.append(MetricSpec(name, 'histogram', lambda d: d['v'], num_buckets=4))
         elif kind == 'hista10':
@@ -287,6 +307,17 @@ def _scenarios(tier):
             assign = tuple(zip(NAMES, ks))
 
             for seqname in SEQ_NAMES[tier]:
+                data = _scenario_data(assign, SEQS[seqname])
+                npts = 0 if data is None else sum(len(m.data.data_points) for rm in data.resource_metrics
+                    for sm in rm.scope_metrics for m in sm.metrics)
+
+                out.append((assign, seqname, data, npts))
+
+        # dotted family: all DOT_NAMES declared together with one kind, and every name alone with every kind
+        dotted = [tuple((n, k) for n in DOT_NAMES) for k in DOT_KINDS] + [((n, k),) for n in DOT_NAMES for k in DOT_KINDS]
+
+        for assign in dotted:
+            for seqname in (('one', 'edges') if tier == 'quick' else SEQ_NAMES[tier][1:]):
                 data = _scenario_data(assign, SEQS[seqname])
                 npts = 0 if data is None else sum(len(m.data.data_points) for rm in data.resource_metrics
                     for sm in rm.scope_metrics for m in sm.metrics)
@@ -480,6 +511,7 @@ def run(rep):
     rep.part('allowlist', configurations=len(cfgs), sources=len({c['source'] for c in cfgs}), entries=len(ENTRIES),
         subsets=2 ** len(ENTRIES))
     rep.part('metrics', names=len(NAMES), kinds=len(kinds), assignments=len(kinds) ** len(NAMES), value_sequences=len(seqs),
+        dotted_names=len(DOT_NAMES), dotted_entries=len(DOT_ENTRIES), dotted_scenarios=sum(1 for s in scen if s[0][0][0] in DOT_NAMES),
         scenarios=len(scen), scenarios_with_data_points=sum(1 for s in scen if s[3]))
 
     items    = [(tier, i, cfgs[i : i + 8], rep.only) for i in range(0, len(cfgs), 8)]
